@@ -766,14 +766,14 @@ func (o *operation) readRequestMessage(rw *responseWriter, reader io.Reader, msg
 			return limitErr
 		}
 		if grow {
-			buffer.Grow(int(limit))
+			buffer.Grow(int(min(limit, maxPreallocatedBytes)))
 		}
 		_, err = io.Copy(buffer, &hardLimitReader{r: reader, rw: rw, limit: limit, makeError: makeError})
 		if err == nil && buffer.Len() == 0 {
 			err = io.EOF
 		}
 	} else {
-		buffer.Grow(msgLen)
+		buffer.Grow(min(msgLen, maxPreallocatedBytes))
 		_, err = io.CopyN(buffer, reader, int64(msgLen))
 		if errors.Is(err, io.EOF) {
 			// EOF is a sentinel that means normal end of stream; replace it so callers know an error occurred
@@ -1550,7 +1550,7 @@ func (w *envelopingWriter) handleEnvelopeWritten() error {
 			return err
 		}
 		buf := w.rw.op.bufferPool.Get()
-		buf.Grow(int(env.length))
+		buf.Grow(int(min(env.length, maxPreallocatedBytes)))
 		w.current = buf
 		w.mustReleaseCurrent = true
 		w.currentIsTrailer = true
@@ -1780,7 +1780,7 @@ func (w *transformingWriter) Write(data []byte) (n int, err error) {
 				return written, err
 			}
 			w.buffer = w.msg.reset(w.rw.op.bufferPool, false, w.latestEnvelope.compressed)
-			w.buffer.Grow(int(w.latestEnvelope.length))
+			w.buffer.Grow(int(min(w.latestEnvelope.length, maxPreallocatedBytes)))
 			w.expectingBytes = int(w.latestEnvelope.length)
 			w.writingEnvelope = false
 		} else {
